@@ -273,22 +273,52 @@ def map_rule(ck, F, E, P):
     bad_iff = []
     bad_one = []
     bad_ranges = []
+
+    def direct_counts(body, calls):
+        stored = sum(1 for c in calls if sfx(c.callee, "Program::set_numbered_line"))
+        mapped = sum(1 for c in calls if sfx(c.callee, "SourceFileMap::add"))
+        other = sum(1 for c in calls if sfx(c.callee, "SourceFileMap::add_empty") or sfx(c.callee, "SourceFileMap::add_unstored"))
+        pushes = 0
+        for c in calls:
+            if c.callee.endswith("Vec::push"):
+                e = strip_refs(body.expr(c.args[0]))
+                if e[0] == "place" and e[2] and e[2][-1][1] == "line_tokens" and e[2][-1][0].endswith("SourceFileAnalyzer"):
+                    pushes += 1
+        return (stored, mapped, other, pushes)
+
+    summaries = {}
+
+    def helper_summary(path_):
+        """what a private helper of the analyzer (`add_ignored_line`) contributes, when all its paths contribute the same"""
+        if path_ in summaries:
+            return summaries[path_]
+        summaries[path_] = (0, 0, 0, 0)
+        hb = F.bodies.get(path_)
+        if hb is None or hb.path == run.path or "SourceFileAnalyzer::" not in path_ or hb.natural_loops():
+            return summaries[path_]
+        seen = set()
+        try:
+            for p2 in hb.paths(limit=2000):
+                if hb.term(p2[-1])["k"] != "return":
+                    continue
+                cs = [hb.call_at(b) for b in p2]
+                seen.add(direct_counts(hb, [c for c in cs if c is not None]))
+        except OverflowError:
+            return summaries[path_]
+        if len(seen) == 1:
+            summaries[path_] = seen.pop()
+        return summaries[path_]
     for path, stop in paths:
         if stop is None:
             continue  # loop exit
         n += 1
         calls = [run.call_at(b) for b in path]
         calls = [c for c in calls if c is not None]
-        stored = sum(1 for c in calls if sfx(c.callee, "Program::set_numbered_line"))
-        mapped = sum(1 for c in calls if sfx(c.callee, "SourceFileMap::add"))
-        entries = mapped + sum(1 for c in calls if sfx(c.callee, "SourceFileMap::add_empty") or
-                               sfx(c.callee, "SourceFileMap::add_unstored"))
-        pushes = 0
+        stored, mapped, other, pushes = direct_counts(run, calls)
         for c in calls:
-            if c.callee.endswith("Vec::push"):
-                e = strip_refs(run.expr(c.args[0]))
-                if e[0] == "place" and e[2] and e[2][-1][1] == "line_tokens" and e[2][-1][0].endswith("SourceFileAnalyzer"):
-                    pushes += 1
+            hs = helper_summary(c.callee)
+            stored, mapped, other, pushes = stored + hs[0], mapped + hs[1], other + hs[2], pushes + hs[3]
+        entries = mapped + other
         if (stored > 0) != (mapped > 0) or stored > 1 or mapped > 1:
             bad_iff.append((stored, mapped, path))
         if entries != 1 or pushes != 1:
